@@ -94,7 +94,7 @@ Fixpoint chase (old : amap) (fuel : nat) (seen : list ident) (i : ident) : outco
   | O => Err
   | S f =>
     match get old NType i with
-    | None => Panic                                     (* index[newName].Typ() on a missing entry *)
+    | None => Err                                       (* after fix e8258c9: "unable to locate type identifier" (was: nil dereference, a panic) *)
     | Some t =>
       match t_kind t with
       | KAlias target => if existsb (ident_eqb i) seen then Err else chase old f (i :: seen) target
